@@ -366,5 +366,13 @@ def convert_version(model: ir.Model, target_version: int) -> None:
             f"Target opset version {target_version} is not supported. "
             f"Supported range: {SUPPORTED_MIN_ONNX_OPSET} to {SUPPORTED_MAX_ONNX_OPSET}."
         )
+    source_version = _get_onnx_opset_version(model)
+    if source_version is not None and source_version < SUPPORTED_MIN_ONNX_OPSET:
+        # There are no adapters below the minimum version: the nodes would be stamped
+        # with the target version while keeping their old form.
+        raise VersionConverterError(
+            f"Source opset version {source_version} is not supported. "
+            f"Supported range: {SUPPORTED_MIN_ONNX_OPSET} to {SUPPORTED_MAX_ONNX_OPSET}."
+        )
     version_converter = _VersionConverter(target_version=target_version)
     version_converter.visit_model(model)
